@@ -20,7 +20,7 @@ Classes == {"PVLModule", "PVLGroup", "PVLObject", "OrderedMultiDict"}
 Shallow == {"copy_method", "copy_copy"}
 Deep    == {"deepcopy", "pickle0", "pickle1", "pickle2", "pickle3", "pickle4", "pickle5"}
 Mechs   == Shallow \cup Deep
-Encoders == {"PVL", "ODL", "PDS3", "ISIS"}
+Encoders == {"PVL", "ODL", "PDS3", "ISIS", "DEFAULT"}      \* DEFAULT: pvl.dumps(m) with no encoder argument (a PDS3 encoder)
 
 (* tree projection of the object graph below id (the graph is a forest by construction) *)
 RECURSIVE Proj(_, _)
@@ -63,5 +63,5 @@ SameUpToRelabel(a, b, allow) ==
    /\ \A j \in 1..Len(a.items) :
          /\ a.items[j][1] = b.items[j][1]
          /\ SameUpToRelabel(a.items[j][2], b.items[j][2], allow)
-DumpAllowed(enc, pre, post) == SameUpToRelabel(pre, post, enc = "PDS3")
+DumpAllowed(enc, pre, post) == SameUpToRelabel(pre, post, enc \in {"PDS3", "DEFAULT"})
 =============================================================================
